@@ -1,5 +1,5 @@
 """Human-written text for MANIFEST.json."""
-HOOK_COMMITS = ["b5838f9", "900676b", "7ec1a26", "655f284", "24d3207", "3a5ae5e", "e23717c"]  # 900676b is reverted by 7ec1a26 (net: nothing)
+HOOK_COMMITS = ["b5838f9", "900676b", "7ec1a26", "655f284", "24d3207", "3a5ae5e", "e23717c", "f0784b2"]  # 900676b is reverted by 7ec1a26 (net: nothing)
 
 ALLOC_NOTE = ("Trusted: Lean kernel (axioms propext, Classical.choice, Quot.sound only); the hand-written model of bitmap.go / bitmap_ipv4.go / ipcalc.go, "
               "tied to the code by differential conformance on generated histories (sampling, bounded by generator quality); "
